@@ -21,7 +21,7 @@ from pathlib import Path
 
 HERE = Path(__file__).resolve().parent
 sys.path.insert(0, str(HERE))
-sys.path.insert(0, '/repo/src')  # the implementation under test is always /repo's working tree
+sys.path.insert(0, os.path.join(os.environ.get('VERIF_REPO', '/repo'), 'src'))  # implementation under test: /repo's working tree
 os.environ.setdefault('PYTHONHASHSEED', '0')
 os.environ['PTB_MR_MRPRO_VERIF'] = '1'
 warnings.filterwarnings('ignore')
@@ -71,7 +71,7 @@ def main() -> int:
         if fam is None or payload.get('case') is None:
             print(f'replay names no executable case (broken: {payload.get("broken")})')
             return 1
-        vlib.coq_static_build()
+        vlib.coq_static_build([f'Properties/{prop}.vo'])
         ctx.run_family(fam, [payload['case']])
         if ctx.problems or ctx.known_hits:
             for p in ctx.problems:
@@ -86,7 +86,7 @@ def main() -> int:
     lint = vlib.lint_coq()
     for b in lint:
         ctx.problem('proof', 'lint', None, b)
-    ok, log = vlib.coq_static_build()
+    ok, log = vlib.coq_static_build([f'Properties/{prop}.vo'])
     if not ok:
         ctx.problem('proof', 'build', None, 'static Coq build failed: ' + log[-1500:])
     pf = vlib.check_properties_file(prop)
